@@ -62,8 +62,10 @@ Definition resp_of_answer (r : rreq) (a : ranswer) : rresp :=
 
 (* SOUNDNESS of the check results carried by a response about block [k] = the honest block [hb]:
    a last-slice proof verifies only for the true last index and its root, a slice proof only for the true
-   root of that slice, and a validly signed shred with the requested indices, the slice's root and the
-   slice's last flag is the leader's shred (one slice content per root).  Anything else is unconstrained. *)
+   root of that slice, and a validly signed shred with the requested indices, the slice's root, the slice's
+   last flag and a data / coding type consistent with its index is the leader's shred (one slice content per
+   root).  Anything else is unconstrained - in particular a validly signed shred of the leader whose (unsigned)
+   type was flipped in transit: the requester ignores it (current tree) and keeps the request. *)
 Definition sound_resp (hb : hblock) (k : N) (p : rresp) : bool :=
   match p with
   | PNack _ => true
@@ -72,7 +74,7 @@ Definition sound_resp (hb : hblock) (k : N) (p : rresp) : bool :=
   | PRoot (RRoot b s) root ok => implb ((b =? k) && ok) (root =? hb_root hb s)
   | PShred (RShred b s i) slot_ok sh sig_ok =>
     implb ((b =? k) && sig_ok && (b_slice sh =? s) && (b_index sh =? i)
-           && (b_root sh =? hb_root hb s) && Bool.eqb (b_last sh) (hb_is_last hb s))
+           && (b_root sh =? hb_root hb s) && Bool.eqb (b_last sh) (hb_is_last hb s) && shred_tag_ok sh)
           (bshred_eqb sh (hshred hb s i))
   | _ => true
   end.
